@@ -141,6 +141,17 @@ fn prim_read_c_string_bounded() {
     std::mem::forget(res);
 }
 
+// messages without members are dispatched through assert_empty: exactly the empty body is accepted
+#[kani::proof]
+#[kani::unwind(2)]
+fn prim_assert_empty() {
+    let body_size: u32 = kani::any();
+    let opcode: u32 = kani::any();
+    let r = assert_empty(body_size, opcode, "X");
+    assert!(r.is_ok() == (body_size == 0), "C04:memberless-message-accepts-only-the-empty-body");
+    std::mem::forget(r);
+}
+
 #[kani::proof]
 #[kani::unwind(2)]
 fn prim_canary() {
